@@ -241,6 +241,9 @@ pub fn minimise(check: &dyn Check, plan: Plan, vi: &Violation) -> (Plan, Violati
             if tries >= budget {
                 break;
             }
+            if !check.plan_ok(&cand) {
+                continue;
+            }
             tries += 1;
             let (one, t) = execute(check, cand.clone(), None);
             if one.harness_error.is_some() {
